@@ -488,12 +488,15 @@ func (r *ruleState) convergenceBudget() int {
 	tasks += len(s.Last.Callbacks)
 	sched := 0
 	r.fastSchedules = map[string]bool{}
+	// with more schedules than the firing cycle takes per period a schedule gets its turn only every
+	// ceil(n/batch) periods
+	turn := step * int64(ceilDiv(len(s.Last.Schedules), cfg.ScheduleBatch))
 	for id, sc := range s.Last.Schedules {
 		per := schedulePeriod(sc)
 		if per <= 0 {
 			continue
 		}
-		if per <= 2*step {
+		if per <= 2*turn {
 			// occurrences arrive at least half as fast as cycles: catching up is not bounded
 			r.fastSchedules[id] = true
 			continue
@@ -673,9 +676,12 @@ func (r *ruleState) onQuiesceEnd(rounds int) {
 	// a schedule whose occurrences arrive about as fast as firing cycles never catches up and,
 	// being the most overdue, is always served first: with a batch smaller than the number of
 	// schedules it keeps the others waiting as well
+	// occurrences that arrive at least half as fast as a schedule gets its turn (every ceil(n/batch)
+	// periods) are an overload the configuration brings on itself: catching up is not bounded
+	turn := step * int64(ceilDiv(len(last.Schedules), s.Cfg.ScheduleBatch))
 	hog := false
 	for _, sc := range last.Schedules {
-		if per := schedulePeriod(sc); per > 0 && per <= 2*step && len(last.Schedules) > s.Cfg.ScheduleBatch {
+		if per := schedulePeriod(sc); per > 0 && per <= 2*turn && len(last.Schedules) > s.Cfg.ScheduleBatch {
 			hog = true
 		}
 	}
@@ -685,7 +691,7 @@ func (r *ruleState) onQuiesceEnd(rounds int) {
 	if s.bgEnabled("SchedulePromises") && !hog {
 		for _, id := range tables.SortedKeys(last.Schedules) {
 			sc := last.Schedules[id]
-			if per := schedulePeriod(sc); r.fastSchedules[id] || (per > 0 && per <= 2*step) {
+			if per := schedulePeriod(sc); r.fastSchedules[id] || (per > 0 && per <= 2*turn) {
 				s.Probes["schedule_rate_too_high_skipped"]++
 				continue
 			}
